@@ -69,9 +69,9 @@ def run(res, tier, seed):
 
     def oracle(case, out):
         return None
-    return D.run_family(res, "C15", "C15", cases, dcases,
+    return D.run_family(res, "C15", ["C15", "C15_thms"], cases, dcases,
                         rule="every event kind (multi-byte characters of each length, CSI/SS3 keys, alt-prefixed keys, SGR/X10 reports, pastes, control bytes, unknown CSIs) placed at every offset -13..+1 (quick) around byte 256 (thorough: 256, 512, 768 and three padding styles), read in 256-byte reads, followed by short or long tails; random long well-formed streams; Spec (= one-shot meaning of the events) evaluated on the real output; distinct = distinct byte strings")
 
 
 def replay(res, path):
-    return D.replay_family(res, "C15", "C15", path)
+    return D.replay_family(res, "C15", ["C15", "C15_thms"], path)
